@@ -602,6 +602,24 @@ SameLow(a, b) == IF a.k # b.k THEN FALSE
                         [] a.k \in {"date", "time"} -> a.w = b.w
                         [] a.k = "dur" -> a.r3 = b.r3 /\ a.years = b.years /\ a.months = b.months
                         [] OTHER -> TRUE
+\* a well-formed ISO 8601 interval: one '/', a date-time on one side and a date-time or a duration on the other
+IvWellFormed(t) ==
+  LET j == FirstIn(t, {cSlash}, 1) IN
+  /\ j > 1 /\ j < Len(t) /\ FirstIn(t, {cSlash}, j + 1) = 0
+  /\ LET a == Sub(t, 1, j - 1)  b == Sub(t, j + 1, Len(t))
+         IsDTs(x) == Len(x) <= 40 /\ LET r == Recognise(x) IN r.ok /\ r.kind = "datetime"
+         IsDur(x) == x[1] = cP /\ LET d == RecDuration(x) IN d.ok /\ ~d.big /\ d.maxdigits < 10
+     IN (IsDTs(a) /\ (IsDTs(b) \/ IsDur(b))) \/ (IsDur(a) /\ IsDTs(b))
+\* the end-point a start/duration or duration/end string leaves to be computed stays clear of the ends of the
+\* representable range (soundness rule 3); TRUE for start/end strings
+IvEndpointInRange(t) ==
+  LET j == FirstIn(t, {cSlash}, 1)
+      a == Sub(t, 1, j - 1)  b == Sub(t, j + 1, Len(t))
+      W7(v) == <<v.d[1], v.d[2], v.d[3], v.t[1], v.t[2], v.t[3], v.t[4]>>
+      CofD(d) == CompOfRest(BNToInt(d.y), BNToInt(d.mo), d.rest)
+  IN IF a[1] = cP THEN CalInRange(W7(Recognise(b)), NegC(CofD(RecDuration(a))))
+     ELSE IF b[1] = cP THEN CalInRange(W7(Recognise(a)), CofD(RecDuration(b)))
+     ELSE TRUE
 J_parse_any(e) ==
   LET t == e.a.text  p == e.post  o == e.a.opts
       ascii == \A i \in 1..Len(t) : t[i] < 128
@@ -611,9 +629,10 @@ J_parse_any(e) ==
       outcome == IF p.top.k = "exc" THEN (IF "ValueError" \in ToSet(p.top.names) THEN "ValueError" ELSE "escaped") ELSE p.top.k
       isNow == t = <<110, 111, 119>>                 \* parse("now") is a documented special case
       excName == IF p.top.k = "exc" THEN p.top.names[1] ELSE "-"
+      ivok == ascii /\ Len(t) <= 90 /\ IvWellFormed(t)
   IN IF isNow THEN R(<<"now">>, <<>>) ELSE
      R(<<outcome, B(o.strict), B(o.exact), B(r.ok), B(rd.ok), B(HasForeign(t)), e.a.origin, "exc", excName,
-         "slash", B(Has(t, cSlash)), "nonascii", B(~ascii), "wide", B(rd.ok /\ rd.maxdigits >= 10),
+         "slash", B(Has(t, cSlash)), "iv-wellformed", B(ivok), "iv-endpoint-in-range", (IF ivok THEN B(IvEndpointInRange(t)) ELSE "-"), "nonascii", B(~ascii), "wide", B(rd.ok /\ rd.maxdigits >= 10),
          "longdigits", B(\E i \in 1..(Len(t) - 9) : AllDigits(Sub(t, i, i + 9))),
          "durfrac", B(rd.ok /\ rd.hasfrac), "trailing-newline", B(Len(t) > 0 /\ t[Len(t)] = 10),
          "ends-colon", B((Len(t) > 0 /\ t[Len(t)] = cColon) \/ (\E i \in 1..(Len(t) - 1) : t[i] = cColon /\ t[i + 1] \in {cColon, cDot, cComma}))>>,
